@@ -232,6 +232,12 @@ pub fn check(c: &Case, stats: &mut Stats) -> CheckResult {
     if c.parents.iter().any(|(p, ch)| (*p == 0 && !present.contains(p)) || (*ch == 0 && !present.contains(ch))) || c.ann.iter().any(|a| a.term == Some(0) && !present.contains(&0)) {
         stats.label("absent-id-0");
     }
+    {
+        let alias = |x: &u32| !present.contains(x) && present.contains(&(x & ((1 << 24) - 1)));
+        if c.parents.iter().any(|(p, ch)| alias(p) || alias(ch)) || c.ann.iter().any(|a| a.term.as_ref().is_some_and(alias)) {
+            stats.label("absent-id-equal-to-a-present-id-mod-2^24");
+        }
+    }
     if c.terms.len() != present.len() {
         stats.label("duplicate-new_term");
     }
@@ -296,7 +302,14 @@ fn strategy(tier: Tier) -> BoxedStrategy<Case> {
             }
             let absent = |r: u32| -> u32 {
                 // ids that are not terms: neighbours, far values, values beyond the id table
-                let mut a = match r % 8 {
+                let mut a = match r % 10 {
+                    // aliases of a present id under a power-of-two mask or a decimal modulus
+                    8 if !ids.is_empty() => {
+                        let t = ids[(r / 10) as usize % ids.len()];
+                        let step = [1u32 << 24, 1 << 16, 1 << 20, 10_000_000, 1 << 31, 1 << 25][(r / 160) as usize % 6];
+                        t.wrapping_add(step.wrapping_mul(1 + (r / 1000) % 3))
+                    }
+                    9 if !ids.is_empty() => ids[(r / 10) as usize % ids.len()] | (1 << 24),
                     0 => 10_000_000 + (r / 8) % 1000,
                     1 => u32::MAX - (r / 8) % 7,
                     // borders of the id space: the ids 0, 1, 9_999_999 when they are not terms
@@ -349,7 +362,7 @@ impl Property for C15 {
         "C15"
     }
     fn rule(&self) -> String {
-        "Generated call histories in the order the Builder typestates allow: new_term* (duplicates, ids dense / sparse / borders) -> add_parent* over present and absent ids (present pairs keep the graph acyclic; absent ids are neighbours, far values, the borders 0 / 1 / 9_999_999, values >= 10^7 and near u32::MAX) -> add_gene/add_*_disease and annotate_* over present and absent terms (failing calls carry a different record name) -> calculate_information_content -> build_minimal / build_with_defaults, set_hpo_version in a generated typestate; 20-50 % of the calls fail by construction. Stateful oracle: an interpreter of the history over plain sets predicts every Ok/Err; the built ontology is walked through the complete read API under catch_unwind (every handed-out id must resolve); its snapshot must equal the reference model of the successful calls AND the snapshot of the ontology built from the successful calls alone. evaluations = Builder calls. Non-trivial = >=1 failing add_parent with a present parent, >=1 failing annotate_*, and a later successful annotate on the same record; distinct by hash of the history.".into()
+        "Generated call histories in the order the Builder typestates allow: new_term* (duplicates, ids dense / sparse / borders) -> add_parent* over present and absent ids (present pairs keep the graph acyclic; absent ids are neighbours, far values, the borders 0 / 1 / 9_999_999, values >= 10^7 and near u32::MAX, and aliases of present ids under power-of-two masks / decimal moduli such as id + k*2^24) -> add_gene/add_*_disease and annotate_* over present and absent terms (failing calls carry a different record name) -> calculate_information_content -> build_minimal / build_with_defaults, set_hpo_version in a generated typestate; 20-50 % of the calls fail by construction. Stateful oracle: an interpreter of the history over plain sets predicts every Ok/Err; the built ontology is walked through the complete read API under catch_unwind (every handed-out id must resolve); its snapshot must equal the reference model of the successful calls AND the snapshot of the ontology built from the successful calls alone. evaluations = Builder calls. Non-trivial = >=1 failing add_parent with a present parent, >=1 failing annotate_*, and a later successful annotate on the same record; distinct by hash of the history.".into()
     }
     fn assumptions(&self) -> Vec<String> {
         vec![
@@ -364,7 +377,7 @@ impl Property for C15 {
         }
     }
     fn required_labels(&self, _tier: Tier) -> Vec<&'static str> {
-        vec!["nontrivial", "failing-add_parent(present parent, absent child)", "failing-add_parent(absent parent, present child)", "failing-annotate", "duplicate-new_term", "absent-id-0", "build_with_defaults", "record-mentioned-only-by-failing-calls"]
+        vec!["nontrivial", "failing-add_parent(present parent, absent child)", "failing-add_parent(absent parent, present child)", "failing-annotate", "duplicate-new_term", "absent-id-0", "build_with_defaults", "record-mentioned-only-by-failing-calls", "absent-id-equal-to-a-present-id-mod-2^24"]
     }
     fn run_generated(&self, tier: Tier, seed: u64, n: u64, stats: &mut Stats) -> Option<(Value, Failure)> {
         run_typed(strategy(tier), seed, n, stats, check)
